@@ -27,6 +27,7 @@ theorem cases_target (cs : Bool) (brk cont : String) (t : CSem.Ty) (v : Int) (b 
     simp only [funcstmt, targetLabel, isCase, List.find?_cons, List.find?_nil]
     split <;> simp_all
   | decl i t' init => intro c; cases init <;> simp [funcstmt, targetLabel, isCase]
+  | call dst rt fn args => intro c; rcases dst with _ | ⟨i, t'⟩ <;> simp [funcstmt, targetLabel, isCase]
   | _ => intro c; simp [funcstmt, targetLabel, isCase]
 
 theorem dflt_target (cs : Bool) (brk cont : String) (b : Stmt) :
@@ -41,6 +42,7 @@ theorem dflt_target (cs : Bool) (brk cont : String) (b : Stmt) :
     | none => exact ihy _
   | default_ => intro c; simp [funcstmt, targetLabel, isDefault]
   | decl i t' init => intro c; cases init <;> simp [funcstmt, targetLabel, isDefault]
+  | call dst rt fn args => intro c; rcases dst with _ | ⟨i, t'⟩ <;> simp [funcstmt, targetLabel, isDefault]
   | _ => intro c; simp [funcstmt, targetLabel, isDefault]
 
 theorem cases_vals (cs : Bool) (brk cont : String) (b : Stmt) :
@@ -49,6 +51,7 @@ theorem cases_vals (cs : Bool) (brk cont : String) (b : Stmt) :
   | seq x y ihx ihy => intro c; simp only [funcstmt, caseVals, List.map_append, ihx, ihy]
   | case_ u => intro c; rfl
   | decl i t' init => intro c; cases init <;> simp [funcstmt, caseVals]
+  | call dst rt fn args => intro c; rcases dst with _ | ⟨i, t'⟩ <;> simp [funcstmt, caseVals]
   | _ => intro c; simp [funcstmt, caseVals]
 
 /-- every registered label is the label of an item without phi -/
@@ -92,6 +95,12 @@ theorem cases_items (cs : Bool) (brk cont : String) (b : Stmt) :
   | decl i t' init =>
     intro c l h
     cases init <;>
+    · rcases h with ⟨u', hu⟩ | hd
+      · simp [funcstmt] at hu
+      · simp [funcstmt] at hd
+  | call dst rt fn args =>
+    intro c l h
+    rcases dst with _ | ⟨i, t'⟩ <;>
     · rcases h with ⟨u', hu⟩ | hd
       · simp [funcstmt] at hu
       · simp [funcstmt] at hd
